@@ -176,9 +176,9 @@ deriving Repr, DecidableEq, Inhabited
 
 /-- tiles of side `T`, left to right, top to bottom; right/bottom tiles are smaller -/
 def tileGrid (T : Nat) (g : Geometry) : List TileRect :=
-  (List.range ((g.h + T - 1) / T)).flatMap fun ty =>
-    (List.range ((g.w + T - 1) / T)).map fun tx =>
-      ⟨tx * T, ty * T, min T (g.w - tx * T), min T (g.h - ty * T)⟩
+  let tpr := (g.w + T - 1) / T          -- tiles per row
+  (List.range (((g.h + T - 1) / T) * tpr)).map fun k =>
+    ⟨(k % tpr) * T, (k / tpr) * T, min T (g.w - (k % tpr) * T), min T (g.h - (k / tpr) * T)⟩
 
 /-- put decoded tiles (in `tileGrid` order, each row-major) together -/
 def assemble (T : Nat) (g : Geometry) (tiles : List (List Pixel)) : List Pixel :=
@@ -480,6 +480,11 @@ def PixFmt.cpix (f : PixFmt) : CPix :=
     else .full 4
   else .full f.bytespp
 
+/-- the CPIXEL rule as implemented by libvncserver, LibVNCClient, TigerVNC and RealVNC's reference
+code: the same as `cpix` but WITHOUT the test `depth ≤ 24` (a libvncserver screen announces depth 32
+for its 8-8-8 format and still sends 3-byte CPIXELs; known finding `cpixel-depth`) -/
+def PixFmt.cpixDeFacto (f : PixFmt) : CPix := ({ f with depth := min f.depth 24 } : PixFmt).cpix
+
 /-- TPIXEL of Tight: the full pixel, or three bytes R,G,B when bpp = 32, depth = 24 and all three
 maxima are 255 -/
 inductive TPix where
@@ -697,6 +702,8 @@ structure Codecs where
   tight : Nat → Bytes → Option Bytes := fun _ => some
   lzo : Bytes → Option Bytes := some
   still : TightCodecs := {}
+  /-- use `PixFmt.cpixDeFacto` instead of the RFC's `PixFmt.cpix` for ZRLE/TRLE -/
+  cpixDeFacto : Bool := false
 
 /-- payload of one pixel-data rectangle in the given encoding -/
 def decodeRect (cd : Codecs) (f : PixFmt) (enc : Nat) (g : Geometry) : Dec (List Pixel) :=
@@ -706,8 +713,8 @@ def decodeRect (cd : Codecs) (f : PixFmt) (enc : Nat) (g : Geometry) : Dec (List
   else if enc = encHextile then decodeHextile g f.bytespp
   else if enc = encZlib then decodeZlib cd.zlib g f.bytespp
   else if enc = encUltra then decodeUltra cd.lzo g f.bytespp
-  else if enc = encZRLE then decodeZRLE cd.zrle g f.cpix
-  else if enc = encTRLE then decodeTRLE g f.cpix
+  else if enc = encZRLE then decodeZRLE cd.zrle g (if cd.cpixDeFacto then f.cpixDeFacto else f.cpix)
+  else if enc = encTRLE then decodeTRLE g (if cd.cpixDeFacto then f.cpixDeFacto else f.cpix)
   else if enc = encTight then decodeTight { cd.still with isPng := false } cd.tight f g
   else if enc = encTightPng then decodeTight { cd.still with isPng := true } cd.tight f g
   else fun _ => none
